@@ -86,8 +86,8 @@ type Sim struct {
 	mu      sync.Mutex
 	minGoid int64
 	byGoid  map[int64]*G
-	all    []*G
-	nextX  int
+	all     []*G
+	nextX   int
 
 	wake chan struct{}
 
